@@ -403,7 +403,9 @@ func (t *fnTrans) enterLoop(b *ssa.BasicBlock, li *loopInfo) {
 			}
 		}
 	}
+	t.foreignLoop(false, b.Instrs[0].Pos(), fmt.Sprintf("loop%d:entry", li.ord), all, vars)
 	t.havocLoop(all, vars)
+	t.foreignLoop(true, token.NoPos, "", all, vars)
 	for _, phi := range phis {
 		t.freshVal(phi)
 		t.locs[phi] = nil
@@ -491,6 +493,10 @@ func (t *fnTrans) backEdge(from, to *ssa.BasicBlock) {
 			}
 		}
 		t.curBlock = saveBlk
+	}
+	{
+		all, vars := t.loopModSet(li)
+		t.foreignLoop(false, from.Instrs[len(from.Instrs)-1].Pos(), fmt.Sprintf("loop%d:backedge", li.ord), all, vars)
 	}
 	t.ownBackEdgeHook(li)
 	t.cur = save
